@@ -142,6 +142,12 @@ static int op_sign_verify(int argc, char **argv, FILE *o) {    /* sig m pk : det
     if (rc2 == 0 && (ml != b[1].n || memcmp(m, b[1].p, b[1].n))) fputs("OPEN-MSG-DIFFERS ", o);
     if (rc2 != 0 && ml != 0) fputs("OPEN-FAIL-MLEN ", o);
     if (rc2 != 0) { size_t i; for (i = 0; i < b[1].n; i++) if (m[i] != 0 && m[i] != 0x5c) { fputs("OPEN-FAIL-LEAK ", o); break; } }
+    {   /* the optional-pointer call forms: verification only (m == NULL) and mlen_p == NULL must give the same verdict */
+        unsigned long long ml3 = 12345; int rc3 = crypto_sign_open(NULL, &ml3, sm, b[1].n + 64, b[2].p), rc4;
+        memset(m, 0x5c, b[1].n + 64); rc4 = crypto_sign_open(m, NULL, sm, b[1].n + 64, b[2].p);
+        if (rc3 != rc || (rc3 == 0 && ml3 != b[1].n) || (rc3 != 0 && ml3 != 0)) fputs("OPEN-NULLM-DIFFERS ", o);
+        if (rc4 != rc || (rc4 == 0 && memcmp(m, b[1].p, b[1].n))) fputs("OPEN-NULLLEN-DIFFERS ", o);
+    }
     fprintf(o, "%d", rc); free(sm); free(m); fb(b, NB); return 0;
 }
 static int op_sign_open(int argc, char **argv, FILE *o) {      /* sm pk */
@@ -149,6 +155,7 @@ static int op_sign_open(int argc, char **argv, FILE *o) {      /* sm pk */
     if (nb(argc, argv, b, NB)) return -1; NEED(1, 32)
     cap = b[0].n; m = (unsigned char *) malloc(cap + 1); memset(m, 0x5c, cap);
     rc = crypto_sign_open(m, &ml, b[0].p, b[0].n, b[1].p);
+    { unsigned long long ml3 = 12345; int rc3 = crypto_sign_open(NULL, &ml3, b[0].p, b[0].n, b[1].p); if (rc3 != rc || ml3 != ml) fputs("OPEN-NULLM-DIFFERS ", o); }
     fprintf(o, "%d %llu ", rc, ml); hx_put_hex(o, m, cap >= 64 ? cap - 64 : 0); free(m); fb(b, NB); return 0;
 }
 static int op_sign_ph(int argc, char **argv, FILE *o) {        /* sign.ph create sk chunks... | verify sig pk chunks... */
